@@ -30,6 +30,7 @@ def main():
     ap.add_argument("--tier", default="quick")
     ap.add_argument("--keep", action="store_true")
     ap.add_argument("--seed", default="0")
+    ap.add_argument("--from-head", action="store_true", help="scratch /verif = committed HEAD (+ the current Lean build output), not the working tree — use while builders are editing /verif")
     ap.add_argument("--no-demo", action="store_true", help="harmless-refactoring mode: no demo.py, every check is expected to exit 0")
     a = ap.parse_args()
     sd = Path(a.seed_dir).resolve()
@@ -52,7 +53,14 @@ def main():
         out["demo_pristine_exit"], out["demo_patched_exit"] = rc0, rc1
         out["demo_patched_tail"] = o1.strip().split("\n")[-3:]
         print(f"demo: pristine exit {rc0}, patched exit {rc1}")
-        sh(["rsync", "-a", "--exclude", ".git", "--exclude", "replays", "--exclude", "seeded", str(VERIF) + "/", str(vf)])
+        if a.from_head:
+            vf.mkdir()
+            subprocess.run(f"git -C {VERIF} archive HEAD | tar -x -C {vf} --exclude=seeded --exclude=replays", shell=True, check=True)
+            sh(["rsync", "-a", str(VERIF / "lean" / ".lake"), str(vf / "lean") + "/"])
+            if (VERIF / "lean" / "TE.lean").exists():
+                shutil.copy(VERIF / "lean" / "TE.lean", vf / "lean" / "TE.lean")
+        else:
+            sh(["rsync", "-a", "--exclude", ".git", "--exclude", "replays", "--exclude", "seeded", str(VERIF) + "/", str(vf)])
         env = dict(os.environ, TE_REPO=str(wt), VERIF_SEED=a.seed)
         env.pop("PYTHONPATH", None)
         for p in props:
